@@ -29,7 +29,7 @@ S(n) == ToString(n)
 
 \* ------------------------------------------------------------------ leaf templates (arity, returns)
 Leaves == {"add2", "sumloop", "sign", "print", "local", "bytes", "counted", "tablecheck", "max2",
-           "rotloop", "readint", "sbrk", "randrange"}
+           "rotloop", "readint", "sbrk", "randrange", "tworet"}
 Arity(k) == CASE k \in {"add2", "max2", "twice", "randrange"} -> 2 [] k \in {"tablecheck", "loadmax", "readint"} -> 0 [] OTHER -> 1
 Returns(k) == k # "print"
 
@@ -64,6 +64,10 @@ Leaf(n, k) ==
            I("j " \o n \o "_test", n \o ":jump"), L(n \o "_body:", ""), I("add s0, s0, a0", ""), I("addi a0, a0, -1", ""),
            L(n \o "_test:", ""), I("bgtz a0, " \o n \o "_body", ""), I("mv a0, s0", n \o ":retval"), I("lw s0, 8(sp)", ""),
            I("addi sp, sp, 16", n \o ":free"), I("ret", n \o ":ret") >>
+    [] k = "tworet" ->    \* frame and saved register, two returns; the tagged restore / free are on the path to the later one
+        << L(n \o ":", n \o ":label"), I("addi sp, sp, -16", n \o ":first"), I("sw s0, 8(sp)", n \o ":save-s0"), I("mv s0, a0", n \o ":def-s0"),
+           I("beqz a0, " \o n \o "_zero", ""), I("add a0, s0, s0", ""), I("lw s0, 8(sp)", ""), I("addi sp, sp, 16", ""), I("ret", ""),
+           L(n \o "_zero:", ""), I("li a0, 7", ""), I("lw s0, 8(sp)", n \o ":restore-s0"), I("addi sp, sp, 16", n \o ":free"), I("ret", n \o ":ret") >>
     [] k = "readint" ->   \* the result comes from an environment call and is handed back untouched
         << L(n \o ":", n \o ":label"), I("li a7, 5", n \o ":first"), I("ecall", n \o ":ecall"), I("ret", n \o ":ret") >>
     [] k = "sbrk" ->      \* environment call whose result register is also its argument
@@ -189,9 +193,12 @@ Inject(p, kind, fn, var) ==
     [] kind = "write-to-zero" ->
         IF Has(p, t("ret")) THEN yes(InsAfter(p, Idx(p, t("ret")) - 1, << I(CASE var = 1 -> "add zero, a0, a0" [] var = 2 -> "li zero, 5" [] OTHER -> "addi zero, zero, 1", "inj") >>), E({"save-to-zero"}, "inj", 0)) ELSE no
     [] kind = "stack-at-entry-sp" ->
-        IF Has(p, t("ret")) /\ ~Has(p, t("free")) THEN yes(InsAfter(p, Idx(p, t("label")), << I("sw a0, 0(sp)", "inj") >>), E({"invalid-stack-offset-usage"}, "inj", -1)) ELSE no
+        IF Has(p, t("ret")) /\ ~Has(p, t("free")) THEN yes(InsAfter(p, Idx(p, t("label")), << I(CASE var = 1 -> "sw a0, 0(sp)" [] var = 2 -> "sw zero, 0(sp)" [] OTHER -> "lw t5, 4(sp)", "inj") >>
+                                                             \o (IF var = 3 THEN << I("add a0, a0, t5", "") >> ELSE <<>>)),
+                                                        E({"invalid-stack-offset-usage"}, "inj", -1)) ELSE no
     [] kind = "stack-above-entry-sp" ->
-        IF Has(p, t("save-ra")) THEN yes(InsAfter(p, Idx(p, t("save-ra")), << I("sw a0, 64(sp)", "inj") >>), E({"invalid-stack-offset-usage"}, "inj", -1)) ELSE no
+        IF Has(p, t("save-ra")) THEN yes(InsAfter(p, Idx(p, t("save-ra")), << I(CASE var = 1 -> "sw a0, 64(sp)" [] var = 2 -> "sh zero, 66(sp)" [] OTHER -> "sb a0, 65(sp)", "inj") >>),
+                                              E({"invalid-stack-offset-usage"}, "inj", -1)) ELSE no
     [] kind = "in-data-segment" ->
         IF Has(p, t("ret")) THEN yes(InsAfter(p, Idx(p, t("ret")) - 1, << L(".data", ""), I("addi a0, a0, 0", "inj"), L(".text", "") >>), E({"invalid-segment"}, "inj", -1)) ELSE no
     [] kind = "unknown-ecall" ->
@@ -246,7 +253,8 @@ PickMain == /\ phase = "main"
                  /\ mainseq' = ms
             /\ phase' = (IF WithInject THEN "inject" ELSE "emit") /\ UNCHANGED <<f1, f2, f3, lay, inj>>
 PickInj == /\ phase = "inject"
-           /\ \E k \in InjKinds, fn \in {"F1", "F2"}, v \in (IF Cover THEN {1} ELSE 1..3) :
+           /\ \E k \in InjKinds, fn \in {"F1", "F2"}, v \in 1..3 :
+                /\ (Cover /\ k \notin {"stack-at-entry-sp", "stack-above-entry-sp"} => v = 1)
                 /\ Inject(Program(f1, f2, f3, lay, mainseq), k, fn, v).ok
                 /\ inj' = <<k, fn, v>>
            /\ phase' = "emit" /\ UNCHANGED <<f1, f2, f3, lay, mainseq>>
